@@ -4,9 +4,18 @@ pub mod c04;
 pub mod c03;
 pub mod c05;
 pub mod c06;
+pub mod c07;
+pub mod c08;
+pub mod c09;
 pub mod c10;
 pub mod c11;
 pub mod c12;
+pub mod c13;
+pub mod c14;
+pub mod c15;
+pub mod c16;
+pub mod c17;
+pub mod c18;
 pub mod util;
 
 use crate::case::{Case, Failure};
@@ -21,9 +30,18 @@ pub fn check_fn(prop: &str) -> Option<crate::runner::CheckFn> {
         "C03" => c03::check,
         "C05" => c05::check,
         "C06" => c06::check,
+        "C07" => c07::check,
+        "C08" => c08::check,
+        "C09" => c09::check,
         "C10" => c10::check,
         "C11" => c11::check,
         "C12" => c12::check,
+        "C13" => c13::check,
+        "C14" => c14::check,
+        "C15" => c15::check,
+        "C16" => c16::check,
+        "C17" => c17::check,
+        "C18" => c18::check,
         _ => return None,
     })
 }
@@ -36,9 +54,18 @@ pub fn generate(prop: &str, r: &mut Runner) {
         "C03" => c03::generate(r),
         "C05" => c05::generate(r),
         "C06" => c06::generate(r),
+        "C07" => c07::generate(r),
+        "C08" => c08::generate(r),
+        "C09" => c09::generate(r),
         "C10" => c10::generate(r),
         "C11" => c11::generate(r),
         "C12" => c12::generate(r),
+        "C18" => c18::generate(r),
+        "C17" => c17::generate(r),
+        "C16" => c16::generate(r),
+        "C15" => c15::generate(r),
+        "C14" => c14::generate(r),
+        "C13" => c13::generate(r),
         _ => {}
     }
 }
@@ -51,9 +78,18 @@ pub fn rule(prop: &str) -> &'static str {
         "C03" => c03::RULE,
         "C05" => c05::RULE,
         "C06" => c06::RULE,
+        "C07" => c07::RULE,
+        "C08" => c08::RULE,
+        "C09" => c09::RULE,
         "C10" => c10::RULE,
         "C11" => c11::RULE,
         "C12" => c12::RULE,
+        "C18" => c18::RULE,
+        "C17" => c17::RULE,
+        "C16" => c16::RULE,
+        "C15" => c15::RULE,
+        "C14" => c14::RULE,
+        "C13" => c13::RULE,
         _ => "",
     }
 }
